@@ -226,6 +226,12 @@ def check_state(f, model_doc, conc, deep=True):
     """verdict observables after a step.  Returns None or a message."""
     exp = conc.doc_text(model_doc)
     got = f.dump()
+    if deep:
+        import io
+        buf = io.BytesIO()
+        f.dump(buf)
+        if buf.getvalue().decode("utf-8") != got:
+            return "dump(fd) writes %r but dump() returns %r" % (buf.getvalue().decode("utf-8", "replace"), got)
     mparas = [part for part in model_doc if part["t"] == "p"]
     if not eq_mod_final_newline(exp, got):
         # fall back to what the statement promises: same paragraphs, same fields in the same
